@@ -15,7 +15,9 @@ from vp.refs import gf256
 LEVEL = "fault_enumeration"
 RULE = (
     "products: ALL 65536 operand pairs.  Encoder: the zero message and ALL 9x255 single-symbol messages x the masks "
-    "{000000, 969696, 999999} (complete basis), Hypothesis-drawn messages x masks (standard's and random), GF(2)- and "
+    "{000000, 969696, 999999} (complete basis), two-symbol messages (all 36 position pairs x sampled first value x ALL 255 "
+    "second values; thorough: all 36x255x255), Hypothesis-drawn messages (uniform, sparse, and constructed so that a "
+    "quotient symbol of the division is 0 while the register is loaded) x masks (standard's and random), GF(2)- and "
     "GF(256)-linearity and mask-is-XOR relations on Hypothesis-drawn pairs.  Checker: Hypothesis-drawn 12-octet words of "
     "the classes {random, generated, generated under another mask, generated + error in 1..12 symbols, sum of two "
     "codewords} compared with the reference syndrome test in both directions.  Faults: per sampled (message, mask) ALL "
@@ -83,6 +85,45 @@ def oracle_generate(case):
     ok = call(RS().check, word, mask)[1]
     if ok is not True:
         raise Fail("generated_word_accepted_under_same_mask", ok, True)
+
+
+_GMUL = []
+
+
+def _fast_parity(msg):
+    """reference parity through a 256-entry table of c*g1, c*g2, c*g3 built from the shift-and-add product"""
+    if not _GMUL:
+        g = gf256.generator()
+        _GMUL.extend((gf256.mul(c, g[1]), gf256.mul(c, g[2]), gf256.mul(c, g[3])) for c in range(256))
+    r0 = r1 = r2 = 0
+    for d in msg:
+        a, b, c = _GMUL[d ^ r0]
+        r0, r1, r2 = r1 ^ a, r2 ^ b, c
+    return bytes((r0, r1, r2))
+
+
+def oracle_two_symbol(case):
+    """case = {i, vi, j, mask}: ALL 255 messages with value vi at octet i, a swept non-zero value at octet j, zeros elsewhere:
+    generate == message || reference parity ^ mask (the unique systematic word with zero syndromes)."""
+    i, vi, j, mask = case["i"], case["vi"], case["j"], bytes.fromhex(case["mask"])
+    if i == j or not (1 <= vi <= 255):
+        raise HarnessError(f"bad case {case}")
+    gen = RS().generate
+    probe = None
+    for vj in range(1, 256):
+        m = bytearray(9)
+        m[i] = vi
+        m[j] = vj
+        m = bytes(m)
+        exp = m + _xor(_fast_parity(m), mask)
+        got = call(gen, m, mask)[1]
+        if got != exp:
+            if gf256.syndromes(gf256.unmask(list(exp), list(mask))) != [0, 0, 0]:
+                raise HarnessError("fast reference parity is wrong")
+            raise Fail("zero_syndromes_with_mask_removed", {"msg": m.hex(), "word": bytes(got).hex(), "syndromes": gf256.syndromes(gf256.unmask(list(got), list(mask))) if len(got) == 12 else None}, {"msg": m.hex(), "word": exp.hex(), "syndromes": [0, 0, 0]})
+        probe = exp
+    if gf256.syndromes(gf256.unmask(list(probe), list(mask))) != [0, 0, 0]:
+        raise HarnessError("fast reference parity is wrong")
 
 
 def _xor(a: bytes, b: bytes) -> bytes:
@@ -192,6 +233,34 @@ def drv_generate_basis(ctx: Ctx, sub: SubCheck):
     ctx.tally.exhaustive[sub.name] = True
 
 
+def drv_two_symbol(ctx: Ctx, sub: SubCheck):
+    complete = ctx.tier == "thorough"
+    masks = sorted(STD_MASKS.values())
+    items = [(i, j) for i in range(9) for j in range(9) if i < j]
+
+    def work(it, t: Tally):
+        i, j = it
+        rng = ctx.rng("two_symbol", i, j)
+        vals = list(range(1, 256)) if complete else sorted(rng.sample(range(1, 256), 12))
+        n_zq = 0
+        for vi in vals:
+            case = {"i": i, "vi": vi, "j": j, "mask": masks[(vi + i + j) % 3]}
+            ctx.run_case(sub.name, oracle_two_symbol, case, t)
+            # of the 255 swept messages exactly one has quotient symbol 0 at step j while the register is loaded: the one
+            # whose octet j equals the (non-zero) top stage of the register there
+            m = [0] * 9
+            m[i] = vi
+            top = gf256.register_top_after(m[:j])
+            n_zq += 1 if top != 0 else 0
+        t.case(sub.name, nontrivial=True, cls="two_symbol_messages", n=255 * len(vals))
+        t.cls(sub.name, "of_which_zero_quotient_at_second_symbol", n_zq)
+        t.sample(sub.name, {"i": i, "vi": vals[0], "j": j, "mask": masks[(vals[0] + i + j) % 3]})
+
+    ctx.shards(work, items)
+    ctx.tally.exhaustive[sub.name] = complete
+    ctx.tally.notes.append("generate_two_symbol: " + ("ALL 36*255*255 = 2340900 two-symbol messages" if complete else "all 36 position pairs x 12 sampled first values x all 255 second values"))
+
+
 def _st():
     from hypothesis import strategies as st
 
@@ -207,7 +276,21 @@ def st_msg():
     st = _st()
     # uniform 9 octets, or sparse messages (few non-zero symbols)
     sparse = st.lists(st.tuples(st.integers(0, 8), st.integers(1, 255)), min_size=0, max_size=3).map(_sparse)
-    return st.one_of(st.binary(min_size=9, max_size=9).map(bytes.hex), sparse)
+    uniform = st.binary(min_size=9, max_size=9)
+    # constructed: at position p the octet equals the top stage of the division register, i.e. the quotient symbol is 0
+    # while the register is loaded (random messages do this with probability ~3 %, basis words never)
+    zero_quotient = st.builds(_force_zero_quotient, uniform, st.integers(1, 8))
+    return st.one_of(uniform.map(bytes.hex), sparse, zero_quotient)
+
+
+def _force_zero_quotient(raw: bytes, pos: int):
+    m = bytearray(raw)
+    m[pos] = gf256.register_top_after(list(m[:pos]))
+    return bytes(m).hex()
+
+
+def _zq(hexmsg):
+    return ":zero_quotient_step" if gf256.division_trace(list(bytes.fromhex(hexmsg)))[1] else ""
 
 
 def _sparse(pairs):
@@ -232,7 +315,7 @@ def drv_generate_random(ctx: Ctx, sub: SubCheck):
     st = _st()
     strat = st.builds(lambda m, k: {"msg": m, "mask": k}, st_msg(), st_mask())
     _hyp(ctx, sub, strat, oracle_generate, 120, 3000,
-         lambda c, t: t.case(sub.name, key=c, nontrivial=_nz(c["msg"]) >= 2, cls=("standard_mask" if c["mask"] in STD_MASKS.values() else "random_mask") + (":dense" if _nz(c["msg"]) > 3 else ":sparse")))
+         lambda c, t: t.case(sub.name, key=c, nontrivial=_nz(c["msg"]) >= 2, cls=("standard_mask" if c["mask"] in STD_MASKS.values() else "random_mask") + (":dense" if _nz(c["msg"]) > 3 else ":sparse") + _zq(c["msg"])))
 
 
 def drv_linearity(ctx: Ctx, sub: SubCheck):
@@ -386,6 +469,7 @@ def drv_mask_change(ctx: Ctx, sub: SubCheck):
 SUBCHECKS = [
     SubCheck("multiply", oracle_multiply, drv_multiply, "all 65536 products == shift-and-add GF(2^8) modulo 0x11D"),
     SubCheck("generate_basis", oracle_generate, drv_generate_basis, "zero + all 9x255 single-symbol messages x 3 masks: systematic, zero syndromes, accepted"),
+    SubCheck("generate_two_symbol", oracle_two_symbol, drv_two_symbol, "two-symbol messages (complete in thorough): generate == message || reference parity ^ mask"),
     SubCheck("generate_random", oracle_generate, drv_generate_random, "Hypothesis messages x masks: systematic, zero syndromes with the mask removed, accepted"),
     SubCheck("linearity", oracle_linearity, drv_linearity, "generate is GF(256)-linear with mask 0 and the mask is an XOR on the parity octets"),
     SubCheck("check_word", oracle_check_word, drv_check_word, "check(word, mask) == zero syndromes of the unmasked word, both directions"),
